@@ -11,6 +11,11 @@ type prog struct {
 	Src  string
 }
 
+// cliOnly: the program's point is the process-level output machinery (open output buffers); the
+// in-process route replaces the output writer itself, so there these programs would only report
+// the harness's own doing. They take part in the CLI route (and the CLI repetitions) only.
+var cliOnly = map[string]bool{"end-ob-nested-open": true, "end-ob-callback-open": true, "end-ob-open-then-uncaught": true, "end-ob-open-then-fatal": true, "end-ob-open-then-exit": true}
+
 var programs = []prog{
 	{"class-casefold", `class Foo { public $a = 1; function m() { return "m"; } }
 class fOO2 { }
